@@ -238,3 +238,103 @@ def normalize_next_genexp(P):
         if n_sites[0] != before:
             f.node.body = body
     return n_sites[0]
+
+
+def normalize_counting_while(P):
+    """`v = A; while v >= B: BODY; v -= 1` is `for v in reversed(range(B, A + 1)): BODY` (and `v = A; while v < N:
+    BODY; v += 1` is `for v in range(A, N): BODY`) when BODY neither assigns v elsewhere nor uses `continue`, and v
+    is not read after the loop.  `X - 1 + 1` is written `X`, `range(0, n)` is written `range(n)`."""
+    import copy
+    n_sites = [0]
+
+    def plus1(e):
+        if isinstance(e, ast.BinOp) and isinstance(e.op, ast.Sub) and isinstance(e.right, ast.Constant) and e.right.value == 1:
+            return copy.deepcopy(e.left)
+        if isinstance(e, ast.Constant) and isinstance(e.value, int):
+            return ast.Constant(value=e.value + 1)
+        return ast.BinOp(left=copy.deepcopy(e), op=ast.Add(), right=ast.Constant(value=1))
+
+    def mk_range(lo, hi):
+        args = [hi] if isinstance(lo, ast.Constant) and lo.value == 0 else [lo, hi]
+        return ast.Call(func=ast.Name(id="range", ctx=ast.Load()), args=args, keywords=[])
+
+    def conv(block, i, fn_node):
+        init, loop = block[i], block[i + 1]
+        if not (isinstance(init, ast.Assign) and len(init.targets) == 1 and isinstance(init.targets[0], ast.Name) and isinstance(loop, ast.While) and not loop.orelse):
+            return None
+        v = init.targets[0].id
+        t = loop.test
+        if not (isinstance(t, ast.Compare) and len(t.ops) == 1 and isinstance(t.left, ast.Name) and t.left.id == v):
+            return None
+        body = loop.body
+        if not body or not (isinstance(body[-1], ast.AugAssign) and isinstance(body[-1].target, ast.Name) and body[-1].target.id == v
+                            and isinstance(body[-1].value, ast.Constant) and body[-1].value.value == 1):
+            return None
+        step = body[-1].op
+        rest = body[:-1]
+        for s_ in rest:
+            for n in ast.walk(s_):
+                if isinstance(n, ast.Continue):
+                    return None
+                if isinstance(n, ast.Name) and n.id == v and isinstance(n.ctx, (ast.Store, ast.Del)):
+                    return None
+        bound = t.comparators[0]
+        if any(isinstance(n, ast.Name) and n.id == v for n in ast.walk(bound)):
+            return None
+        # the bound is evaluated once by `range`: it has to be invariant in the loop (no call, nothing the body stores)
+        stored = {n.id for s_ in rest for n in ast.walk(s_) if isinstance(n, ast.Name) and isinstance(n.ctx, (ast.Store, ast.Del))}
+        attr_stores = any(isinstance(n, (ast.Attribute, ast.Subscript)) and isinstance(n.ctx, (ast.Store, ast.Del)) for s_ in rest for n in ast.walk(s_))
+        if any(isinstance(n, ast.Call) for n in ast.walk(bound)) or any(isinstance(n, ast.Name) and n.id in stored for n in ast.walk(bound)) \
+                or (attr_stores and any(isinstance(n, (ast.Attribute, ast.Subscript)) for n in ast.walk(bound))):
+            return None
+        # v must not be read after the loop
+        after = block[i + 2:]
+        if any(isinstance(n, ast.Name) and n.id == v and isinstance(n.ctx, ast.Load) for s_ in after for n in ast.walk(s_)):
+            return None
+        if isinstance(step, ast.Sub) and isinstance(t.ops[0], (ast.GtE, ast.Gt)):
+            lo = copy.deepcopy(bound) if isinstance(t.ops[0], ast.GtE) else plus1(bound)
+            it = ast.Call(func=ast.Name(id="reversed", ctx=ast.Load()), args=[mk_range(lo, plus1(init.value))], keywords=[])
+        elif isinstance(step, ast.Add) and isinstance(t.ops[0], (ast.Lt, ast.LtE)):
+            hi = copy.deepcopy(bound) if isinstance(t.ops[0], ast.Lt) else plus1(bound)
+            it = mk_range(copy.deepcopy(init.value), hi)
+        else:
+            return None
+        new = ast.For(target=ast.Name(id=v, ctx=ast.Store()), iter=it, body=rest or [ast.Pass()], orelse=[])
+        ast.copy_location(new, loop)
+        for x in ast.walk(new):
+            if not hasattr(x, "lineno"):
+                ast.copy_location(x, loop)
+        n_sites[0] += 1
+        return ast.fix_missing_locations(new)
+
+    def rewrite(block, fn_node):
+        out = []
+        i = 0
+        while i < len(block):
+            s_ = block[i]
+            for fld in ("body", "orelse", "finalbody"):
+                sub = getattr(s_, fld, None)
+                if isinstance(sub, list) and sub and isinstance(sub[0], ast.stmt):
+                    setattr(s_, fld, rewrite(sub, fn_node))
+            if isinstance(s_, ast.Try):
+                for h in s_.handlers:
+                    h.body = rewrite(h.body, fn_node)
+            new = conv(block, i, fn_node) if i + 1 < len(block) else None
+            if new is not None:
+                out.append(new)
+                i += 2
+                continue
+            out.append(s_)
+            i += 1
+        return out
+
+    for f in list(P.funcs.values()):
+        if f.module.is_tools or f.parent is not None:
+            continue
+        if not any(isinstance(n, ast.While) for n in ast.walk(f.node)):
+            continue
+        before = n_sites[0]
+        body = rewrite(f.node.body, f.node)
+        if n_sites[0] != before:
+            f.node.body = body
+    return n_sites[0]
